@@ -50,7 +50,7 @@ def generate(ctx):
     for i in range(ctx.budget(150, 1300)):
         op = ["add_nested", "add_nested", "add_nested", "add_nested_on", "from_flat", "from_flat_on", "from_lists", "nest_lists",
               "setitem_new_nest", "add_nested_dtype"][i % 10]
-        schema = gen.gen_schema(rng, 3)
+        schema = gen.spice_names(rng, gen.gen_schema(rng, 3))
         names = [n for n, _ in schema]
         nb = rng.randint(0, 6)
         nflat = rng.choice([0, 1, 3, 6, 10]) if i % 11 else rng.randint(17, 60)
